@@ -47,7 +47,7 @@ def convert(input_image_stream, output_image_stream):
         else:
             repeat = ord(iotostr(f.read(1)))
             c = ord(iotostr(f.read(1)))
-        for jj in range(repeat):
+        for jj in range(min(repeat, ii)):
             ii = ii - 1
             dump(c >> 4)
             dump(c & 7)
